@@ -176,6 +176,10 @@ pub struct Mix {
     pub rotate_one_in: u64,
     /// body transport faults (pending polls, connection reset) 1/n deliveries
     pub body_fault_one_in: u64,
+    /// the key store behaves like `tower::limit::ConcurrencyLimit` and friends: `call` without a
+    /// preceding Ready from `poll_ready` panics ("poll_ready must be called first") instead of
+    /// returning an error
+    pub provider_panics_unready: bool,
     pub exec: ExecPolicy,
     pub max_concurrent: usize,
     pub node: NodeKnobs,
@@ -213,6 +217,7 @@ impl Mix {
             prov_pending: 1,
             rotate_one_in: 0,
             body_fault_one_in: 0,
+            provider_panics_unready: false,
             exec: ExecPolicy {
                 spurious_one_in: 0,
                 cancel_one_in: 0,
@@ -522,6 +527,7 @@ pub fn run_form_world(t: &mut Tape, mix: &Mix, judge: Judge) -> RunOut {
 pub fn execute_and_judge(t: &mut Tape, mix: &Mix, accounts: &[Account], nodes: &[Node], planned: Vec<Planned>, judge: Judge, out: &mut RunOut) {
     let cache_level = t.below(5) as u8;
     let shared = Arc::new(Mutex::new(Shared::new(accounts.to_vec(), cache_level)));
+    shared.lock().unwrap().panic_unready = mix.provider_panics_unready;
     let ntasks = planned.iter().map(|p| p.task).max().map(|x| x + 1).unwrap_or(1);
     let mut tasks: Vec<Vec<Job>> = (0..ntasks).map(|_| Vec::new()).collect();
     let mut expected: Vec<Option<(Verdict, RDetail, Expect)>> = Vec::new();
